@@ -3,7 +3,7 @@
    num_occurrences, a unique tag and further data vectors); no size bounds anywhere. *)
 From Coq Require Import List ZArith QArith Qcanon Bool Arith Permutation Sorting.Sorted.
 From Dimod Require Import Base.Util Model.Poly Model.Samples Model.SSet Proofs.SamplesFacts Proofs.SSetFacts
-  Proofs.SSetAgg Proofs.SSetMore Proofs.SSetSort Model.ChkC14.
+  Proofs.SSetAgg Proofs.SSetMore Proofs.SSetSort Model.ChkC14 Gen.Gen_Narrow Model.Narrow Proofs.NarrowFacts.
 Import ListNotations.
 Open Scope Qc_scope.
 
@@ -353,6 +353,28 @@ Theorem C14_deferred_inplace_change_vartype_receiver_refuted :
     /\ dresolve K base d1 <> dresolve K base ret.
 Proof. exact deferred_inplace_change_vartype_receiver_refuted. Qed.
 Print Assumptions C14_deferred_inplace_change_vartype_receiver_refuted.
+
+(* ---- as_samples without dtype: the narrowing rule of _sample_array (candidate list GENERATED from the source) ---- *)
+Theorem C14_narrow_represents :
+  forall vals w, narrow vals = Some w -> forall v, In v vals -> (iinfo_min w <= v <= iinfo_max w)%Z.
+Proof. exact narrow_represents. Qed.
+Print Assumptions C14_narrow_represents.
+
+Theorem C14_narrow_first :
+  forall vals w, narrow vals = Some w ->
+    exists before after, gen_narrow_candidates = before ++ w :: after
+                         /\ forall w', In w' before -> (iinfo_max w' < magnitude vals)%Z.
+Proof. exact narrow_first. Qed.
+Print Assumptions C14_narrow_first.
+
+Theorem C14_narrow_value_error_iff :
+  forall cands vals, narrow_in cands vals = None <-> forall w, In w cands -> (iinfo_max w < magnitude vals)%Z.
+Proof. exact narrow_in_none. Qed.
+Print Assumptions C14_narrow_value_error_iff.
+
+Theorem C14_narrow_candidates_increasing : gen_narrow_candidates = [8; 16; 32; 64]%nat.
+Proof. exact narrow_candidates_increasing. Qed.
+Print Assumptions C14_narrow_candidates_increasing.
 
 (* the hypotheses are satisfiable on non-trivial data *)
 Example C14_aggregate_example :
